@@ -60,6 +60,7 @@ ASSUMPTIONS = [
     "schemas are in typedpy's dialect (multiplesOf, not:[...]); the independent validator sees the two-rule dialect fix",
     "additionalItems on an array whose items is a single schema or absent has no counterpart in the model's declarations (no runtime effect): the Lean round-trip theorems abstract from it, the executed round-trip oracle compares it literally (true and false); " 
     "comparison of schemas is up to key order, required order and draft-4 default-valued keywords (exclusiveMaximum/uniqueItems false, additionalItems true, absent additionalProperties = true); description is compared through __doc__",
+    "uniqueItems documents: for every uniqueItems array (directly, as array items, map values or nested-object properties, wrapped <= 2 deep; also after a positional prefix) element pairs that are JSON-equal but spelled differently (int vs float in nested arrays/objects, permuted object keys), JSON-different but Python-equal (true vs 1), identical and genuinely different; the draft-4 verdict decides; uniqueItems over Structure elements ($ref / properties) stays excluded", 
     "exact sub-fragment additionally excludes: defaults, unanchored patterns, enum members that are bool-like or equal across types (True == 1 == 1.0), multiplesOf on number, wrapped (non-object) top-level schemas, allOf/anyOf/oneOf/not over object / map / $ref members (deserialization of structured options is C06); document domain: deviations on null, bool-for-number, 'True'/'False' strings, short positional arrays and undeclared keys are keyed phenomena (known findings exact:*)",
 ]
 
